@@ -1,13 +1,13 @@
 package main
 
 import (
-	"go/types"
-	"sort"
-	"golang.org/x/tools/go/packages"
 	"fmt"
 	"go/ast"
 	"go/constant"
 	"go/token"
+	"go/types"
+	"golang.org/x/tools/go/packages"
+	"sort"
 	"strings"
 
 	"golang.org/x/tools/go/ssa"
@@ -53,50 +53,77 @@ func c01LineTerminators(p *Prog) *RuleResult {
 			r.Instances++
 			key := fmt.Sprintf("%s sets HasNewlineBefore #%d", FuncName(fn), k)
 			have := map[int64]bool{}
-			// walk up through single-predecessor blocks to the block that the tests jump to
-			blk := b
-			for len(blk.Preds) == 1 && len(blk.Preds[0].Succs) == 1 {
-				blk = blk.Preds[0]
+			judged := []*ssa.BasicBlock{b}
+			// a helper that does nothing but record the line break: judge its call sites instead
+			if len(controlDepIfs(b)) == 0 && b == fn.Blocks[0] {
+				var sites []*ssa.BasicBlock
+				for _, caller := range p.ModuleFuncs() {
+					eachInstr(caller, func(cb *ssa.BasicBlock, cin ssa.Instruction) {
+						if cc, ok := cin.(*ssa.Call); ok && cc.Call.StaticCallee() == fn {
+							sites = append(sites, cb)
+						}
+					})
+				}
+				if len(sites) > 0 {
+					judged = sites
+				}
 			}
-			for _, pr := range blk.Preds {
-				if len(pr.Instrs) == 0 {
-					continue
+			missingAt := ""
+			for _, jb := range judged {
+				have = map[int64]bool{}
+				b := jb
+				// walk up through single-predecessor blocks to the block that the tests jump to
+				blk := b
+				for len(blk.Preds) == 1 && len(blk.Preds[0].Succs) == 1 {
+					blk = blk.Preds[0]
 				}
-				ifi, ok := pr.Instrs[len(pr.Instrs)-1].(*ssa.If)
-				if !ok || pr.Succs[0] != blk {
-					continue
-				}
-				if bo, ok := ifi.Cond.(*ssa.BinOp); ok && bo.Op == token.EQL {
-					if kv, ok := constInt(bo.Y); ok {
-						have[kv] = true
+				for _, pr := range blk.Preds {
+					if len(pr.Instrs) == 0 {
+						continue
+					}
+					ifi, ok := pr.Instrs[len(pr.Instrs)-1].(*ssa.If)
+					if !ok || pr.Succs[0] != blk {
+						continue
+					}
+					if bo, ok := ifi.Cond.(*ssa.BinOp); ok && bo.Op == token.EQL {
+						if kv, ok := constInt(bo.Y); ok {
+							have[kv] = true
+						}
 					}
 				}
-			}
-			// string-set tests among the controlling conditions
-			for _, ifi := range controlDepIfs(b) {
-				sliceCond(ifi.Cond, func(v ssa.Value) bool {
-					if call, ok := v.(*ssa.Call); ok {
-						n := calleeFullName(call)
-						if n == "strings.ContainsAny" || n == "strings.IndexAny" || n == "strings.ContainsRune" || n == "strings.IndexRune" {
-							for _, a := range call.Call.Args[1:] {
-								if s, ok := constString(a); ok {
-									for _, ch := range s {
-										have[int64(ch)] = true
+				// string-set tests among the controlling conditions
+				for _, ifi := range controlDepIfs(b) {
+					sliceCond(ifi.Cond, func(v ssa.Value) bool {
+						if call, ok := v.(*ssa.Call); ok {
+							n := calleeFullName(call)
+							if n == "strings.ContainsAny" || n == "strings.IndexAny" || n == "strings.ContainsRune" || n == "strings.IndexRune" {
+								for _, a := range call.Call.Args[1:] {
+									if s, ok := constString(a); ok {
+										for _, ch := range s {
+											have[int64(ch)] = true
+										}
+									} else if kv, ok := constInt(a); ok {
+										have[kv] = true
 									}
-								} else if kv, ok := constInt(a); ok {
-									have[kv] = true
 								}
 							}
 						}
+						return true
+					})
+				}
+				var missing []string
+				for _, kv := range need {
+					if !have[kv] {
+						missing = append(missing, fmt.Sprintf("U+%04X", kv))
 					}
-					return true
-				})
+				}
+				if len(missing) > 0 && missingAt == "" {
+					missingAt = strings.Join(missing, ", ")
+				}
 			}
 			var missing []string
-			for _, kv := range need {
-				if !have[kv] {
-					missing = append(missing, fmt.Sprintf("U+%04X", kv))
-				}
+			if missingAt != "" {
+				missing = []string{missingAt}
 			}
 			if len(missing) == 0 {
 				r.OK(key, true, "entered from tests for LF, CR, U+2028 and U+2029")
